@@ -131,6 +131,12 @@ pub fn prefix(cs: u32) -> Vec<Op> {
         Op::CreateFile { base: r, path: "d/x".into(), keep: Some(1) },
         Op::Write { h: 1, len: 1 },
         Op::CreateFile { base: r, path: "long-file-name.txt".into(), keep: None },
+        // fill the first cluster of d completely (2 dot entries + x (2 slots) + 4 x 3 slots = 16 slots of 32 bytes):
+        // the next entry created in d makes the directory grow by one (zero-filled) cluster
+        Op::CreateFile { base: r, path: "d/filler-name-1.txt".into(), keep: None },
+        Op::CreateFile { base: r, path: "d/filler-name-2.txt".into(), keep: None },
+        Op::CreateFile { base: r, path: "d/filler-name-3.txt".into(), keep: None },
+        Op::CreateFile { base: r, path: "d/filler-name-4.txt".into(), keep: None },
     ]
 }
 
